@@ -262,7 +262,7 @@ def run(ctx, proof):
     ctx.extra["rule"] = ("9 kinds of planted located diagnostics x random placement (statement position, indentation, escaped literals / "
                          "descriptions / multi-line items before it) x 4 shells (1 for an unused specialisation); non-trivial = distinct "
                          "(grammar, shell, marker) whose construct does not start in column 1")
-    n = 25000 if ctx.thorough() else 900
+    n = 9000 if ctx.thorough() else 900
     workdir = tempfile.mkdtemp(prefix="c13-", dir=ctx.workdir)
     cases = []
     for i in range(n):
